@@ -39,6 +39,17 @@ pub use multilinear_brakedown::MultilinearBrakedown;
 pub use multilinear_ligero::MultilinearLigero;
 pub use univariate_ligero::UnivariateLigero;
 
+/// Verification hook: the number of column openings computed by the crate-private
+/// `calculate_t` for the given security parameter, relative distance and codeword length.
+#[cfg(feature = "verif-hooks")]
+pub fn verif_calculate_t<F: PrimeField>(
+    sec_param: usize,
+    distance: (usize, usize),
+    codeword_len: usize,
+) -> Result<usize, Error> {
+    calculate_t::<F>(sec_param, distance, codeword_len)
+}
+
 const FIELD_SIZE_ERROR: &str = "This field is not suitable for the proposed parameters";
 
 /// For linear code PC schemes, the universal paramters, committer key
